@@ -337,6 +337,34 @@ class Gen:
         g = f.groupby(keys, dropna=False)[col].apply(lambda s: s.notnull().any())
         return bool(g.all())
 
+    def group_ok_for_var(self, st, col, keys):
+        """False when std / var of col over some group is ill-conditioned: the group's values are (nearly) constant
+        relative to their magnitude, so the result is the rounding error of whichever algorithm computes it (Pandas:
+        std([2.5e11] * 4) = 1.57e-05; exact arithmetic: 0)"""
+        import numpy
+
+        f = st.frame
+        if f.shape[0] == 0:
+            return True
+
+        def ok(s):
+            v = numpy.asarray(s.dropna(), dtype="float64")
+            v = v[numpy.isfinite(v)]
+            if v.size < 2:
+                return True
+            mag = float(numpy.max(numpy.abs(v)))
+            sd = float(numpy.std(v))
+            if sd == 0.0:
+                return mag <= 1e3
+            return sd >= 1e-3 * mag
+
+        try:
+            if not keys:
+                return bool(ok(f[col]))
+            return bool(f.groupby(keys, dropna=False)[col].apply(ok).all())
+        except Exception:
+            return False
+
     def pick_keys(self, st, maxk, hazard):
         rng = self.rng
         cand = [c for c in st.frame.columns if c != "uid" and st.kinds[c] in ("s", "i", "b")]
@@ -362,6 +390,9 @@ class Gen:
             if m in ("sum",) and "agg_allnull" not in self.p.allow:
                 if not self.group_ok_for_sum(st, e[2][1], keys):
                     continue
+            if m in ("std", "var") and not self.group_ok_for_var(st, e[2][1], keys):
+                self.cnt("ill_conditioned_var_avoided")
+                continue
             if (m in ("sum", "count", "size", "_size", "one_sum", "nunique", "any", "all") and st.nrows() == 0 and not keys
                     and "agg_allnull" not in self.p.allow):
                 # accepted convention point: sum/count over a group without a non-null value (0 vs NULL)
@@ -387,6 +418,9 @@ class Gen:
                 continue
             e, k = r
             if m == "sum" and "agg_allnull" not in self.p.allow and not self.group_ok_for_sum(st, e[2][1], keys):
+                continue
+            if m in ("std", "var") and not self.group_ok_for_var(st, e[2][1], keys):
+                self.cnt("ill_conditioned_var_avoided")
                 continue
             tgt = self.newcol(st, "w")
             ops.append([tgt, e])
@@ -446,6 +480,11 @@ class Gen:
         return {"op": "extend", "ops": ops, "partition_by": keys if keys else 1, "order_by": order, "reverse": rev}, kinds
 
     def step_select_rows(self, st):
+        nb = [c for c in st.cols(("b",)) if st.has_null(c)]
+        if nb and self.rng.random() < 0.3:
+            # a logical column that picked up missing values (outer join, concat) as the condition itself
+            self.cnt("select_rows_on_nullable_logical_column")
+            return {"op": "select_rows", "expr": ["col", self.rng.choice(nb)]}, {}
         e, _ = self.boolean(st)
         if not core.expr_cols(e):
             return None
